@@ -14,6 +14,7 @@ func RunC15(r *mon.Run) {
 	r.Assume("a handler that is not released counts as a violation only when net/http had already cancelled the request context handed to larking (recorded by a pass-through handler in front of the mux) and 15 s passed; otherwise the scenario is inconclusive")
 	r.Assume("over HTTP/1 net/http notices a disconnect only after the request body has been consumed (or on a failing read/write); scenarios are restricted to those")
 	runTimeouts(r)
+	runSlowBodies(r)
 	runCancels(r)
 }
 
@@ -42,6 +43,13 @@ func Replay(r *mon.Run, raw json.RawMessage) {
 			return
 		}
 		replayCancel(r, &c)
+	case "slowbody":
+		var c SlowCase
+		if err := json.Unmarshal(head.Case, &c); err != nil {
+			r.Inconclusive("bad replay case: " + err.Error())
+			return
+		}
+		replaySlow(r, &c)
 	case "rpc":
 		replayRPC(r, raw)
 	default:
